@@ -45,6 +45,14 @@ C4(s1, s2)     == [tag |-> "for-for", n |-> s1[2],
                                      P(AttrDot(L("parent"), "index")), Sep("/"), P(AttrDot(L("parent"), "length")), Sep(";")>>,
                                    <<Text("e")>>, TRUE),
                                  P(L("index")), Sep("|")>>, <<Text("E")>>, TRUE)>>]
+(* a failure inside a loop body (at any depth) stops the rendering with an error *)
+CErr(s, k)     == [tag |-> "for-err", n |-> s[2],
+                   body |-> <<Text("["), ForS("", "v", s[1], NoE,
+                               <<P(NameE("v")),
+                                 CASE k = 1 -> P(Pipe(NameE("v"), "nosuchfilter", <<>>))
+                                   [] k = 2 -> ForS("", "w", ArrE(<<IntE(1), IntE(2)>>), NoE, <<P(NameE("w")), P(CallE("nosuchfunc", <<>>))>>, <<>>, FALSE)
+                                   [] OTHER -> IfS(L("last"), <<ForS("", "w", IntE(5), NoE, <<Text("x")>>, <<>>, FALSE)>>, <<>>, FALSE),
+                                 Text(",")>>, <<Text("E")>>, TRUE), Text("]")>>]
 C5(s)          == [tag |-> "for-ifchain", n |-> s[2],
                    body |-> <<ForS("", "v", s[1], NoE,
                                <<IfChain(<<[c |-> L("first"), body |-> <<Text("F")>>],
@@ -79,7 +87,8 @@ CDeep(s1, s2, b) == [tag |-> "deep", n |-> s1[2],
 CaseSet ==
   {C1(s, he) : s \in Seqs, he \in BOOLEAN} \cup {C2(s, he) : s \in Seqs, he \in BOOLEAN}
   \cup {C3(s, c, he) : s \in Seqs, c \in Conds, he \in BOOLEAN}
-  \cup {C4(s1, s2) : s1 \in Iterables, s2 \in Iterables} \cup {C5(s) : s \in Seqs} \cup {C6}
+  \cup {C4(s1, s2) : s1 \in Iterables, s2 \in Seqs} \cup {C5(s) : s \in Seqs} \cup {C6}
+  \cup {CErr(s, k) : s \in Iterables, k \in 1..3}
   \cup {CIf(bits, he) : bits \in BitSeqs, he \in BOOLEAN}
   \cup {CNest(b1, b2, s) : b1 \in BOOLEAN, b2 \in BOOLEAN, s \in Seqs}
   \cup (IF Deep THEN {CDeep(s1, s2, b) : s1 \in Iterables, s2 \in Seqs, b \in BOOLEAN} ELSE {})
@@ -123,6 +132,12 @@ LoopClosedForm == (v_lvl = 2 /\ Cur.tag = "for-fields" /\ Cur.n > 0) =>
              IN HasPrefixAt(bs, p0, line) /\ Chk(bs, p0 + Len(line), j + 1)
   IN S.status = "ok" /\ Chk(MainOut(S), 1, 1)
 (* an inline condition that is constantly false renders no element and not the else branch either *)
+(* an error in a loop body is reported whenever the body runs; an inner loop over a non-iterable value is an error *)
+ErrorsInBodiesReported == (v_lvl = 2 /\ Cur.tag \in {"for-err", "for-for"}) =>
+  LET S == Ref(Cur) IN
+  /\ (Cur.tag = "for-err" /\ Cur.n > 0) => S.status = "err"
+  /\ (Cur.tag = "for-err" /\ Cur.n = 0) => (S.status = "ok" /\ MainOut(S) = S2B("[E]"))
+  /\ (Cur.tag = "for-for" /\ Cur.n > 0 /\ Cur.body[1].body[1].x \in {sq[1] : sq \in {x \in Seqs : x[2] < 0}}) => S.status = "err"
 InlineIfFilters == (v_lvl = 2 /\ Cur.tag = "for-if" /\ Cur.n >= 0) =>
   LET S == Ref(Cur)
       cnd == Cur.body[2].cond IN
